@@ -1,8 +1,14 @@
 // Copyright Amazon.com, Inc. or its affiliates. All Rights Reserved.
 // SPDX-License-Identifier: GPL-2.0-only
 
+#[cfg(not(aws_clock_bound_verif))]
 use std::sync::mpsc::Receiver;
+#[cfg(aws_clock_bound_verif)]
+use verif_rt::mpsc::Receiver;
+#[cfg(not(aws_clock_bound_verif))]
 use std::thread::{panicking, spawn};
+#[cfg(aws_clock_bound_verif)]
+use verif_rt::thread::{panicking, spawn};
 use tracing::{debug, error, info};
 
 use crate::{
